@@ -117,8 +117,13 @@ package httpgen
 //@   at-call marshalResponse requires only_on_success: lastErrNil("serve")
 //@   at-call Write requires after_marshal: lastErrNil("marshalResponse") && lastErrNil("serve")
 //@ emitted func ValidateMessage(msg proto.Message) (err error)
+// what a failed protovalidate check becomes (C10): always a ValidationError object; an error that is not a
+// protovalidate.ValidationError yields exactly one violation carrying the error text
 //@ emitted func convertProtovalidateError(err error) (r *sebufhttp.ValidationError)
+//@   requires !isNil(err)
+//@   modifies *
 //@   ensures r != nil
+//@   ensures generic_error: !errorsAs(err, *protovalidate.ValidationError) ==> len(r.Violations) == 1 && r.Violations[0] != nil && r.Violations[0].Field == "unknown" && r.Violations[0].Description == errmsg(err)
 //@   loop 2 invariant i >= 1
 // URL binders (C02): each configured parameter is read from the URL under its own name, converted by the kind of
 // the message field, and the converted value - never anything else - is stored; an empty path value or a failed
@@ -289,3 +294,4 @@ package httpgen
 //@   at-call json.Marshal requires array_of_elements: isType(arg0, []json.RawMessage) && (forall k int :: 0 <= k && k < len(asType(arg0, []json.RawMessage)) ==> true) && len(asType(arg0, []json.RawMessage)) == len(x.Items)
 //@   loop 1 invariant len(items) == _i1 && count("protojson.Marshal") == old(count("protojson.Marshal")) + _i1
 //@   ensures every_element_encoded: x != nil && err == nil ==> count("protojson.Marshal") == old(count("protojson.Marshal")) + len(x.Items) && count("json.Marshal") == old(count("json.Marshal")) + 1
+
